@@ -1,6 +1,6 @@
 ENTRY = {
     "level": "proof",
-    "families": [fam("C34", 200, 4000, env={"RAYON_NUM_THREADS": "4"})],
+    "families": [fam("C34", 200, 2000, env={"RAYON_NUM_THREADS": "4"})],
     "gen_items": ["MAX_ENCODE_ROWS", "MAX_TICKET_BYTES", "parse_mode", "DistMode::parse_value", "DistMode"],
     "rule": "one world per run: a single node, a 3-node cluster and a node whose loader failed, spawned in-process with the Arrow Flight endpoint enabled, over a 10 000-row Parquet table "
             "(1-2 files, row groups of 3000/5000/10000) plus a small dimension table. Cases: 1/8 DoGet with hand-made tickets (not JSON, oversized, version 0/2, unknown mode, missing fields, empty, "
